@@ -25,7 +25,9 @@ Record c19_case := {
   k_dir : bool;
   k_pos0 : list pt;
   k_ops : list mop;
-  k_trace : list (nat * list pt)       (* first entry: after loading *)
+  k_trace : list (nat * list pt);      (* first entry: after loading *)
+  (* the documented attributes levels, peers_order, pos_levels, pos_peers at the same moments *)
+  k_ints : list (list nat * list nat * list Q * list (list Q))
 }.
 
 Definition tol : Q := 1 # 1000000000.
@@ -98,9 +100,22 @@ End LayoutCase.
 Definition entry_close (a b : nat * list pt) : bool :=
   Nat.eqb (fst a) (fst b) && pts_close (snd a) (snd b).
 
+Fixpoint states (s : mstate) (ops : list mop) : list mstate :=
+  match ops with
+  | [] => []
+  | o :: os => let s' := fst (step s o) in s' :: states s' os
+  end.
+Definition ints_of (s : mstate) := (m_levels s, m_order s, m_plev s, m_ppeers s).
+Definition ints_close (a b : list nat * list nat * list Q * list (list Q)) : bool :=
+  match a, b with
+  | (l1, o1, p1, pp1), (l2, o2, p2, pp2) =>
+      nat_list_eqb l1 l2 && nat_list_eqb o1 o2 && list_eqb close p1 p2 && list_eqb (list_eqb close) pp1 pp2
+  end.
+
 Definition mover_same (cs : c19_case) : bool :=
   let s0 := load (k_dir cs) (k_pos0 cs) in
-  list_eqb entry_close (k_trace cs) ((O, pos s0) :: trace s0 (k_ops cs)).
+  list_eqb entry_close (k_trace cs) ((O, pos s0) :: trace s0 (k_ops cs)) &&
+  list_eqb ints_close (k_ints cs) (map ints_of (s0 :: states s0 (k_ops cs))).
 
 Definition overlap (v : bool) (ps : list pt) (i : nat) (x : Q) : bool :=
   existsb (fun j => negb (Nat.eqb j i) && same_level v ps i j && Qeq_bool (pc v (pt_at ps j)) x)
@@ -153,8 +168,6 @@ Definition mover_spec_ok (cs : c19_case) : bool :=
 Definition c19_check (cs : c19_case) : nat :=
   match k_kind cs with
   | O => code_of (layout_same cs) (layout_spec_ok cs)
-         (* recorded finding 1 (guard: the poset is not empty) *)
-         + (if Nat.eqb (k_n cs) 0 then 10 else 0)
   | _ => code_of (mover_same cs) (mover_spec_ok cs)
   end.
 
